@@ -118,7 +118,7 @@ func main() {
 }
 
 // renameFaults: the rename of a synced temp output to its final name fails (the final name is occupied by a
-// non-empty directory, created in the hook between the sync and the rename). The real frac.Seal must report an
+// non-empty directory, created in the hook between the sync and the rename). The real proxyFrac.Seal must report an
 // error, publish nothing and leave the originals alone; after the obstacle is gone and the store restarted, every
 // document is served and the fraction can be sealed.
 func renameFaults() int {
@@ -162,8 +162,9 @@ func renameFaults() int {
 						err = fmt.Errorf("panic: %v", r)
 					}
 				}()
-				_, err = frac.Seal(act, frac.SealParams{IDsZstdLevel: 1, LIDsZstdLevel: 1, TokenListZstdLevel: 1, DocsPositionsZstdLevel: 1, TokenTableZstdLevel: 1})
-				return err
+				// through the fraction's proxy, as the maintenance loop seals (its error path is part of the contract:
+				// whatever it cleans up, the originals stay)
+				return e.FM().VerifSealActive()
 			}()
 			verifhook.Set(nil)
 			switch {
@@ -171,7 +172,7 @@ func renameFaults() int {
 				emit(map[string]any{"infra": tag + ": the hook between sync and rename was not reached"})
 				os.Exit(3)
 			case err == nil:
-				fail("frac.Seal reported success")
+				fail("the seal reported success")
 			}
 			if st, e2 := os.Stat(final); e2 != nil || !st.IsDir() {
 				fail("the final name was replaced although the rename could not succeed")
